@@ -5,6 +5,7 @@
 
 mod chunkcheck;
 mod exec;
+mod lexcheck;
 mod monitor;
 mod ops;
 mod panics;
@@ -56,6 +57,7 @@ fn serve() {
             "format" => ops::format(req["src"].as_str().unwrap_or(""), &req["options"]),
             "parse" => ops::parse(req["src"].as_str().unwrap_or(""), &req["options"]),
             "prelude" => ops::prelude(),
+            "lexcheck" => lexcheck::check_one(req["src"].as_str().unwrap_or("")),
             "opcodes" => {
                 let counts = monitor::opcode_counts();
                 json!({"opcodes": counts.iter().map(|(n, c)| json!([n, c])).collect::<Vec<_>>()})
@@ -76,6 +78,22 @@ fn real_main() {
     let cmd = args.get(1).map(|s| s.as_str()).unwrap_or("serve");
     match cmd {
         "serve" => serve(),
+        "lex" => {
+            // kvrun lex <main|sub> <max_len> <shard> <n_shards>
+            let alphabet = if args.get(2).map(|s| s.as_str()) == Some("sub") {
+                lexcheck::ALPHABET_SUB
+            } else {
+                lexcheck::ALPHABET_MAIN
+            };
+            let max_len: usize = args.get(3).and_then(|s| s.parse().ok()).unwrap_or(4);
+            let shard: usize = args.get(4).and_then(|s| s.parse().ok()).unwrap_or(0);
+            let n: usize = args.get(5).and_then(|s| s.parse().ok()).unwrap_or(1);
+            let r = panics::guarded(|| lexcheck::exhaustive(alphabet, max_len, shard, n, 200));
+            match r {
+                Ok(v) => println!("{v}"),
+                Err(p) => println!("{}", json!({"panic": panics::to_json(&p)})),
+            }
+        }
         other => {
             eprintln!("unknown sub-command {other}");
             std::process::exit(2);
